@@ -44,7 +44,7 @@ def concurrent_oracle(case, obs):
 def concurrent_cases(rng, n):
     cases = []
     for _ in range(n):
-        cap = rng.choice([100, 100, 101, 128, 257])
+        cap = rng.choice([100, 100, 101, 128, 257, 1000, 10000])
         pol = rng.choice(asyncgen.POLICIES)
         np_ = rng.choice([1, 2, 3, 8, 32])
         ni = rng.choice([50, 200, 600]) if np_ <= 8 else rng.choice([30, 100])
